@@ -172,6 +172,7 @@ def run(ck, F, E):
     import framework
     from props import C14
     C14.quoted_items_are_opaque(framework.Rekeyed(ck, "C14", "C08:REPLY"), F)
+    C14.quoted_items_stay_text(framework.Rekeyed(ck, "C14", "C08:REPLY"), F)
     host_reply_rule(ck, F)
     # ---- (1)
     cs = sorted({b.path for b, _ in callers_of(F, "Interpreter::rewind_program_and_await_input")})
